@@ -539,7 +539,7 @@ func (g *gen) signatureFamily() {
 			}{
 				{"same", []int64{2, 3}, int32(dt), true}, {"transposed", []int64{3, 2}, int32(dt), true}, {"flat", []int64{6}, int32(dt), true},
 				{"rank3", []int64{1, 2, 3}, int32(dt), true}, {"other count", []int64{2, 4}, int32(dt), true}, {"dynamic", []int64{0, 3}, int32(dt), true},
-				{"all dynamic", []int64{0, 0}, int32(dt), true}, {"scalar", []int64{}, int32(dt), true}, {"other element type", []int64{2, 3}, int32(val.Int32), true},
+				{"all dynamic", []int64{0, 0}, int32(dt), true}, {"scalar", []int64{}, int32(dt), true}, {"other element type", []int64{2, 3}, int32(val.Int32), true}, {"declared FLOAT", []int64{2, 3}, int32(val.Float32), true}, {"declared DOUBLE", []int64{2, 3}, int32(val.Float64), true}, {"declared FLOAT16", []int64{2, 3}, 10, true},
 				{"undefined element type", []int64{2, 3}, 0, true}, {"no type", nil, 0, false}, {"negative", []int64{-2, -3}, int32(dt), true}, {"huge", []int64{1 << 40, 3}, int32(dt), true},
 			}
 			for _, d := range decls {
@@ -561,10 +561,23 @@ func (g *gen) signatureFamily() {
 					}
 					vi.Type = &onnx.TypeProto{Value: &onnx.TypeProto_TensorType{TensorType: &onnx.TypeProto_Tensor{ElemType: d.et, Shape: sh}}}
 				}
-				gp.Input = []*onnx.ValueInfoProto{vi}
-				mp := &onnx.ModelProto{IrVersion: 3, Graph: gp, OpsetImport: []*onnx.OperatorSetIdProto{{Version: 13}}}
-				data, _ := proto.MarshalOptions{Deterministic: true}.Marshal(mp)
-				g.run(&Case{Family: "initializer-vs-signature", Base: fmt.Sprintf("%s raw=%v declared %s", dt, raw, d.note), Reader: "bytes", ZipFail: -1, Data: data}, true)
+				for _, place := range []string{"input", "value_info", "output", "input+value_info"} {
+					gp2 := proto.Clone(gp).(*onnx.GraphProto)
+					switch place {
+					case "input":
+						gp2.Input = []*onnx.ValueInfoProto{vi}
+					case "value_info":
+						gp2.ValueInfo = []*onnx.ValueInfoProto{vi}
+					case "output":
+						gp2.Output = []*onnx.ValueInfoProto{vi}
+					default:
+						gp2.Input = []*onnx.ValueInfoProto{{Name: "t"}}
+						gp2.ValueInfo = []*onnx.ValueInfoProto{vi}
+					}
+					mp := &onnx.ModelProto{IrVersion: 3, Graph: gp2, OpsetImport: []*onnx.OperatorSetIdProto{{Version: 13}}}
+					data, _ := proto.MarshalOptions{Deterministic: true}.Marshal(mp)
+					g.run(&Case{Family: "initializer-vs-signature", Base: fmt.Sprintf("%s raw=%v declared %s in graph.%s", dt, raw, d.note, place), Reader: "bytes", ZipFail: -1, Data: data}, true)
+				}
 			}
 		}
 	}
